@@ -186,7 +186,16 @@ def make(seed, n_pairs):
     for k in range(n_pairs):
         n = rng.randint(1, 4)
         methods = [gen_method(rng, f"m{j}") for j in range(n)]
-        kind, edited, expect = edit(rng, methods)
+        if k % 5 == 3:
+            # an unchanged slice/string use comes first, a LATER slice changes its element type
+            # (the validator must not take the first instantiation of a generic C type for all)
+            methods[0].args.insert(0, rng.choice([("&str", "CSliceRef<u8>"), ("&[u8]", "CSliceRef<u8>")]))
+            methods.append(M(f"m{n}", "&self", [("&[u8]", "CSliceRef<u8>")], ("", "()")))
+            edited = copy.deepcopy(methods)
+            edited[-1].args[0] = rng.choice([("&[u32]", "CSliceRef<u32>"), ("&[P1]", "CSliceRef<P1>")])
+            kind, expect = "slice-element-after-unchanged-slice", "differs"
+        else:
+            kind, edited, expect = edit(rng, methods)
         a_src, b_src = trait_src("T", methods), trait_src("T", edited)
         if kind == "param-rename-only":
             b_src = b_src.replace("a0:", "renamed0:")
@@ -302,7 +311,7 @@ fn main() {
             Ok(Info::new(p.expect == "differs").class(format!("edit:{}", p.kind)).class(format!("expect:{}", p.expect)))
         });
     }
-    let code = ctx.finish("pairs (definition, single-edit variant) over traits with 1-4 methods on StableAbi leaf types and groups built from them: edits = add/remove/rename/reorder a method, change one argument or return type (C-visible, or C-neutral such as &str <-> &[u8] or a parameter rename), change receiver kind, toggle int_result, add/remove an argument, add a provided #[vtbl_only] method (C-visible) or a provided #[skip_func] method (not C-visible), add/remove an optional trait, swap mandatory/optional, permute the declared order of optional traits (neutral: they are sorted), and the same edits applied to the trait of an object that a method of the compared type RETURNS (owned or by mutable reference); both sides are expanded in separate modules of a crate built with the layout_checks feature and the Box and ArcBox opaque object/group types are compared with compare_layouts and with VerifyLayout::check (expected type vs found description, also right after a successful check of the same description). Oracle: identical C-visible interface => Valid; different => not Valid; missing description => Unknown; type vs itself => Valid; plus the 9 ordered pairs of the `and` table. Non-trivial = the edited pairs", &["the expected verdict comes from the generator's model of the C-visible signature (method name, receiver, wrapped argument/return types)"], false);
+    let code = ctx.finish("pairs (definition, single-edit variant) over traits with 1-4 methods on StableAbi leaf types and groups built from them: edits = add/remove/rename/reorder a method, change one argument or return type (C-visible, or C-neutral such as &str <-> &[u8] or a parameter rename), change receiver kind, toggle int_result, add/remove an argument, add a provided #[vtbl_only] method (C-visible) or a provided #[skip_func] method (not C-visible), change the element type of a slice argument that follows an unchanged slice use, add/remove an optional trait, swap mandatory/optional, permute the declared order of optional traits (neutral: they are sorted), and the same edits applied to the trait of an object that a method of the compared type RETURNS (owned or by mutable reference); both sides are expanded in separate modules of a crate built with the layout_checks feature and the Box and ArcBox opaque object/group types are compared with compare_layouts and with VerifyLayout::check (expected type vs found description, also right after a successful check of the same description). Oracle: identical C-visible interface => Valid; different => not Valid; missing description => Unknown; type vs itself => Valid; plus the 9 ordered pairs of the `and` table. Non-trivial = the edited pairs", &["the expected verdict comes from the generator's model of the C-visible signature (method name, receiver, wrapped argument/return types)"], false);
     std::process::exit(code);
 }
 """
